@@ -2,11 +2,67 @@
 
 PROPS = {
     'C15': dict(
-        title='Tile bounding boxes and pyramids behave as the sets of tiles they denote',
         verus=['tile_bbox'],
         kani=['pyramid'],
         not_decided=[
             'y-axis geographic round trip through libm tan/ln/exp/atan (numerical error analysis out of reach)',
+        ],
+    ),
+    'C04': dict(
+        verus=['compression', 'converter'],
+        kani=[],
+        not_decided=[
+            'the external codecs themselves (flate2, brotli): assumed inverse pairs',
+            'TileConverter::process_stream / map_blob_parallel (C14): assumed to apply the pipeline to every blob',
+            'metadata compression lines of the versatiles / pmtiles writers (inside async writer bodies)',
+        ],
+    ),
+    'C05': dict(
+        verus=['compression', 'converter'],
+        kani=[],
+        not_decided=[
+            'Accept-Encoding header substring matching, URL splitting and parse::<u32>, status-code mapping, axum/hyper framing',
+            'Content-Type / Content-Encoding header construction in ok_data (axum response builder)',
+        ],
+    ),
+    'C06': dict(
+        verus=['converter', 'tile_bbox'],
+        kani=['pyramid'],
+        not_decided=[
+            'CLI string parsing of --bbox / zoom options (iterator chain, havoc under R9 where extracted)',
+            'multiplicity of streamed tiles (streams are modelled as finite maps)',
+            'y-axis libm numerics of the geographic selection',
+        ],
+    ),
+    'C08': dict(
+        verus=['overlay', 'compression'],
+        kani=['pyramid'],
+        not_decided=[
+            'get_tile_stream of the overlay (async closure per 32x32 sub-box mutating a captured vector)',
+            'construction of the nested source pipelines (join_all, havoc under R9)',
+        ],
+    ),
+    'C09': dict(
+        verus=['filters', 'tile_bbox'],
+        kani=['pyramid'],
+        not_decided=[
+            'Args::from_vpl_node (derive-generated argument parsing; C18 territory)',
+        ],
+    ),
+    'C02': dict(
+        verus=['converter', 'filters'],
+        kani=[],
+        not_decided=[
+            'container readers (the base case): chunk merging, SQL range query, default lookup loop live in async stream code',
+            'overlay and merge stream paths',
+            'multiplicity (each tile once): streams are modelled as finite maps',
+        ],
+    ),
+    'C03': dict(
+        verus=['tile_bbox', 'filters', 'overlay', 'converter'],
+        kani=['pyramid'],
+        not_decided=[
+            'MBTiles MIN/MAX SQL estimate-then-refine', 'tar/directory file-name parsing that feeds include_coord',
         ],
     ),
 }
